@@ -435,9 +435,15 @@ pub fn run(args: &Args) {
 		400,
 		"distinct schedules (coarse call sequences, triple_buffer step sequences) and handle-level (kind, burst pattern) scenes in which at least one command is applied",
 	);
+	// the fixed corpus of (m) runs first on every run
+	let mut covered_m = BTreeSet::new();
+	let t_m = std::time::Instant::now();
+	part_m(&mut s, args, &mut covered_m);
+	s.notes.push(format!("(m) mid-callback writes: fixed corpus + seeded scripts took {} ms", t_m.elapsed().as_millis()));
 	part_a(&mut s, &mut r, args);
 	part_semi(&mut s, &mut r, args);
-	let covered = crate::c07::part_b(&mut s, &mut r, args);
+	let mut covered = crate::c07::part_b(&mut s, &mut r, args);
+	covered.extend(covered_m);
 	part_x(&mut s, &mut r, args);
 	part_d(&mut s, args);
 	part_stress(&mut s, args);
@@ -506,6 +512,12 @@ trait Scene {
 	}
 	/// called before the commands of an interval are issued
 	fn settle(&mut self) {}
+	/// kinds whose handle method ALSO changes what the handle itself reports, at once and on the caller's
+	/// side (a documented courtesy, not an effect on the audio thread): `ClockHandle::stop` stores
+	/// time 0 in the shared cell so that a `time()` right after `stop()` does not report the old time
+	fn handle_side_preview(&self, _kind: usize) -> bool {
+		false
+	}
 	/// called after the last callback of the pattern: observables that need more audio time
 	fn finish(&mut self) -> Vec<i128> {
 		vec![]
@@ -766,6 +778,9 @@ impl Scene for ClockSc {
 	fn extra(&mut self) -> Vec<i128> {
 		let t = self.c.time();
 		vec![self.c.ticking() as i128, t.ticks as i128, obs64(t.fraction)]
+	}
+	fn handle_side_preview(&self, kind: usize) -> bool {
+		kind == 2
 	}
 }
 
@@ -2232,6 +2247,474 @@ fn part_x(s: &mut Session, r: &mut Rng, args: &Args) {
 				quiet(&mut hist, if pos { 2 } else { 1 });
 				let loop0 = if stream { None } else { *r.pick(&[None, None, Some((0, 2)), Some((2, 6))]) };
 				check_hist(s, if stream { "x_random_streaming" } else { "x_random_static" }, ctx, stream, &hist, &XOpts { twin: true, pos, loop0 });
+			}
+		}
+	}
+}
+
+// ------------------------------------------------------------------------------------------
+// (m) commands written WHILE a callback is being rendered
+// ------------------------------------------------------------------------------------------
+// A device callback of CB_FRAMES frames is rendered in CB_FRAMES / IBS internal chunks.  A game thread
+// that is not synchronised with the audio thread writes most of its commands while some chunk of some
+// callback is being rendered, i.e. AFTER that callback's `on_start_processing` drained the readers.  The
+// property says such a command takes effect at the start of the NEXT callback (not in the middle of the
+// one being rendered, whose readers were already drained), exactly once, and that of several commands
+// of one kind written before that next callback starts -- whether during different chunks of the
+// running callback or after it -- only the last is applied.
+//
+// The interleaving is made deterministic through the public API: the `Renderer` is taken out of the
+// harness backend (so that the scene, with the manager and all handles, is free while a callback
+// runs) and a silent probe `Sound` on the main track, whose `process` runs once per chunk, performs
+// the handle calls scripted for that chunk.
+//
+// Monitors, for every (scene, script):
+//   MID-twin  the run is observably IDENTICAL (output bits, handle-visible state), callback by
+//             callback, to the twin in which nothing is written during a callback and, before each
+//             callback, only the LAST command of each kind written since the previous callback
+//             started its rendering is issued;
+//   MID-abs   (send scene) a send closed while callback N is rendered: callback N is heard entirely
+//             with the send open and callback N+1 entirely with it closed; closed and re-opened during
+//             two chunks of callback N: never heard closed.
+//   The model case is the coarse schedule in which the mid-callback writes follow the drain of their
+//   callback (`CCoarse`: write ops after the callback op).
+use kira::info::Info;
+use kira::sound::{Sound, SoundData};
+use std::collections::VecDeque;
+use std::sync::{Arc, Mutex};
+
+const MID_CHUNKS: usize = CB_FRAMES / IBS;
+
+#[derive(Clone, Debug, Default, PartialEq)]
+struct MidStep {
+	/// issued between the previous callback and this one
+	before: Vec<(usize, i64)>,
+	/// issued while chunk i of this callback is being rendered
+	during: Vec<Vec<(usize, i64)>>,
+}
+type MidPattern = Vec<MidStep>;
+
+struct SceneBox(Box<dyn Scene>);
+// the harness drives everything from one thread; `Sound` merely demands the bound
+unsafe impl Send for SceneBox {}
+struct MidShared {
+	scene: Option<SceneBox>,
+	script: VecDeque<Vec<(usize, i64)>>,
+	chunks: usize,
+}
+struct MidProbe(Arc<Mutex<MidShared>>);
+impl Sound for MidProbe {
+	fn process(&mut self, out: &mut [Frame], _dt: f64, _info: &Info) {
+		out.fill(Frame::ZERO);
+		let mut g = self.0.lock().unwrap();
+		g.chunks += 1;
+		if let Some(cmds) = g.script.pop_front() {
+			if let Some(sc) = g.scene.as_mut() {
+				for (k, id) in cmds {
+					sc.0.issue(k, id);
+				}
+			}
+		}
+	}
+	fn finished(&self) -> bool {
+		false
+	}
+}
+struct MidProbeData(Arc<Mutex<MidShared>>);
+impl SoundData for MidProbeData {
+	type Error = ();
+	type Handle = ();
+	fn into_sound(self) -> Result<(Box<dyn Sound>, ()), ()> {
+		Ok((Box::new(MidProbe(self.0)), ()))
+	}
+}
+
+/// runs the script on a fresh scene; per callback: output bits, then the scene's `extra()`
+fn run_mid(mk: &dyn Fn() -> Box<dyn Scene>, pat: &MidPattern) -> Vec<Vec<i128>> {
+	let mut sc = mk();
+	let shared = Arc::new(Mutex::new(MidShared { scene: None, script: VecDeque::new(), chunks: 0 }));
+	sc.mgr().play(MidProbeData(shared.clone())).unwrap();
+	let mut renderer = sc.mgr().backend_mut().renderer.take().unwrap();
+	shared.lock().unwrap().scene = Some(SceneBox(sc));
+	let mut res = vec![];
+	for step in pat {
+		{
+			let mut g = shared.lock().unwrap();
+			let sc = &mut g.scene.as_mut().unwrap().0;
+			sc.settle();
+			for (k, id) in &step.before {
+				sc.issue(*k, *id);
+			}
+			g.script = step.during.iter().cloned().collect();
+			g.chunks = 0;
+		}
+		let mut out = vec![f32::from_bits(0x7FC0_1234); CB_FRAMES * 2];
+		renderer.on_start_processing();
+		renderer.process(&mut out, 2);
+		let mut g = shared.lock().unwrap();
+		assert!(g.chunks == MID_CHUNKS && g.script.is_empty(), "harness: the probe sound ran {} times in a callback of {} chunks", g.chunks, MID_CHUNKS);
+		let mut v: Vec<i128> = out.iter().map(|x| obs32(*x)).collect();
+		v.extend(g.scene.as_mut().unwrap().0.extra());
+		res.push(v);
+	}
+	// the renderer (which owns the probe, which shares the scene) goes first
+	drop(renderer);
+	res
+}
+/// the same commands, each issued after the callback during which it was written (same order)
+fn mid_deferred(pat: &MidPattern) -> Pattern {
+	let mut out: Pattern = vec![];
+	let mut carry: Vec<(usize, i64)> = vec![];
+	for step in pat {
+		let mut b = std::mem::take(&mut carry);
+		b.extend(step.before.iter().cloned());
+		out.push(b);
+		carry = step.during.iter().flatten().cloned().collect();
+	}
+	assert!(carry.is_empty(), "harness: a mid-callback script must end with a quiet callback");
+	out
+}
+fn mid_of(pat: &Pattern) -> MidPattern {
+	pat.iter().map(|b| MidStep { before: b.clone(), during: vec![] }).collect()
+}
+fn mid_text(name: &str, kinds: &[&'static str], pat: &MidPattern) -> String {
+	let used: BTreeSet<usize> = pat.iter().flat_map(|st| st.before.iter().chain(st.during.iter().flatten())).map(|(k, _)| *k).collect();
+	let legend: Vec<String> = used.iter().map(|k| format!("{k}={}", kinds[*k])).collect();
+	let steps: Vec<String> = pat
+		.iter()
+		.enumerate()
+		.map(|(j, st)| {
+			let mut parts = vec![];
+			if !st.before.is_empty() {
+				parts.push(format!("before it {:?}", st.before));
+			}
+			for (c, cmds) in st.during.iter().enumerate() {
+				if !cmds.is_empty() {
+					parts.push(format!("while its chunk {c} is rendered {:?}", cmds));
+				}
+			}
+			format!("callback {}: {}", j + 1, if parts.is_empty() { "-".to_string() } else { parts.join(", ") })
+		})
+		.collect();
+	format!(
+		"mid-callback writes, scene {name} ({} frames per callback, internal buffer {} frames = {} chunks), commands (kind, id) with kinds {{{}}}: {}",
+		CB_FRAMES,
+		IBS,
+		MID_CHUNKS,
+		legend.join(", "),
+		steps.join("; ")
+	)
+}
+
+/// MID-twin + model case; returns (the run, the command-free run)
+fn check_mid(s: &mut Session, name: &str, mk: &dyn Fn() -> Box<dyn Scene>, pat: &MidPattern, kinds: &[&'static str], covered: &mut BTreeSet<String>, tag: &str) -> (Vec<Vec<i128>>, Vec<Vec<i128>>) {
+	let nk = kinds.len();
+	let desc = mid_text(name, kinds, pat);
+	let deferred = mid_deferred(pat);
+	let pred = last_only(&deferred);
+	// what the handle reports after a callback during which a kind with a caller-side preview was
+	// written (ClockHandle::stop: time() reads 0 at once) is not an effect on the audio thread: for
+	// that callback only the rendered output is compared
+	let masked: Vec<bool> = {
+		let probe = mk();
+		pat.iter().map(|st| st.during.iter().flatten().any(|(k, _)| probe.handle_side_preview(*k))).collect()
+	};
+	let mask = |mut v: Vec<Vec<i128>>| -> Vec<Vec<i128>> {
+		for (j, m) in masked.iter().enumerate() {
+			if *m {
+				v[j].truncate(CB_FRAMES * 2);
+			}
+		}
+		v
+	};
+	if masked.iter().any(|m| *m) {
+		s.count("m_handle_side_preview_masked");
+	}
+	let a = mask(run_mid(mk, pat));
+	let c = mask(run_mid(mk, &mid_of(&pred)));
+	let mut ok = true;
+	if a != c {
+		ok = false;
+		let j = (0..a.len()).find(|j| a[*j] != c[*j]).unwrap();
+		let w = (0..a[j].len().min(c[j].len())).find(|i| a[j][*i] != c[j][*i]).unwrap_or(0);
+		let where_ = if w < CB_FRAMES * 2 { format!("output sample {} of frame {} (chunk {})", w % 2, w / 2, w / 2 / IBS) } else { format!("handle-visible observable #{}", w - CB_FRAMES * 2) };
+		// diagnosis: is it the timing (the same commands issued after the callback behave differently)
+		// or the burst rule (all of them issued after the callback differ from the last of each kind)?
+		let b = mask(run_mid(mk, &mid_of(&deferred)));
+		let mid_here = pat[j].during.iter().any(|c| !c.is_empty());
+		let why = if b == c && mid_here {
+			format!(
+				"a command written while callback {} was being rendered took effect before the start of callback {} (or several of one kind written during it were all applied)",
+				j + 1,
+				j + 2
+			)
+		} else if b == c {
+			"commands written while the previous callback was being rendered are not applied as if issued right after it".to_string()
+		} else {
+			"the same commands issued between the callbacks also differ from the last-of-each-kind twin (burst rule)".to_string()
+		};
+		s.fail(
+			desc.clone(),
+			format!(
+				"MID-twin: callback {} differs from the twin in which nothing is written during a callback and only the last command of each kind is issued before the next one: {where_}: {} vs {}; {why}; written during callback {}: {:?}",
+				j + 1,
+				a[j].get(w).copied().unwrap_or(-7),
+				c[j].get(w).copied().unwrap_or(-7),
+				j + 1,
+				pat[j].during
+			),
+			None,
+		);
+	}
+	// sensitivity: is the effect of the commands observable at all, and at the predicted callback?
+	let none: MidPattern = pat.iter().map(|_| MidStep::default()).collect();
+	let n = mask(run_mid(mk, &none));
+	let first_cmd = pred.iter().position(|b| !b.is_empty());
+	let first_diff = (0..c.len()).find(|j| c[*j] != n[*j]);
+	let sensitive = first_cmd.is_some() && first_cmd == first_diff;
+	s.count(if sensitive { "m_effect_seen_at_the_predicted_callback" } else { "m_effect_not_seen_at_the_predicted_callback" });
+	// the model case: the mid-callback writes follow the drain of their callback
+	let (term, _) = pattern_term(nk, &deferred);
+	let mut per_kind: Vec<Vec<i128>> = vec![vec![-1]; nk];
+	for (j, burst) in pred.iter().enumerate() {
+		for k in 0..nk {
+			match burst.iter().find(|(k2, _)| *k2 == k) {
+				Some((_, id)) if ok => per_kind[k].extend_from_slice(&[j as i128 + 1, 1, *id as i128, 0]),
+				Some(_) => per_kind[k].extend_from_slice(&[j as i128 + 1, -99]),
+				None => per_kind[k].extend_from_slice(&[j as i128 + 1, 0]),
+			}
+		}
+	}
+	let key = if sensitive { Some(format!("m:{name}:{tag}:{term}")) } else { None };
+	s.case(&format!("mid_{name}"), term, &per_kind.concat(), key);
+	for k in pat.iter().flat_map(|st| st.during.iter().flatten()).map(|(k, _)| *k).collect::<BTreeSet<usize>>() {
+		covered.insert(kinds[k].to_string());
+		s.count(&format!("mid_kind:{}", kinds[k]));
+	}
+	(a, n)
+}
+
+// ---- send routes: a sub-track (variant 0) or a spatial sub-track (variant 1) with a send at 0 dB ----
+const SEND_SRC: f32 = 0.25;
+struct SendSc {
+	mgr: Mgr,
+	sub: Option<TrackHandle>,
+	spatial: Option<SpatialTrackHandle>,
+	send: SendTrackHandle,
+	_listener: Option<ListenerHandle>,
+}
+impl SendSc {
+	fn new(variant: u64) -> Self {
+		let mut mgr = simple_manager(SR, IBS);
+		let send = mgr.add_send_track(SendTrackBuilder::new()).unwrap();
+		let mut sc = if variant == 0 {
+			let mut sub = mgr.add_sub_track(TrackBuilder::new().with_send(send.id(), Decibels::IDENTITY)).unwrap();
+			sub.play(crate::inject::Dc(SEND_SRC)).unwrap();
+			SendSc { mgr, sub: Some(sub), spatial: None, send, _listener: None }
+		} else {
+			let listener = mgr.add_listener(Vec3::new(0.0, 0.0, 0.0), Quat::IDENTITY).unwrap();
+			let mut sp = mgr
+				.add_spatial_sub_track(listener.id(), Vec3::new(1.0, 0.0, -2.0), SpatialTrackBuilder::new().distances((1.0, 50.0)).with_send(send.id(), Decibels::IDENTITY))
+				.unwrap();
+			sp.play(crate::inject::Dc(SEND_SRC)).unwrap();
+			SendSc { mgr, sub: None, spatial: Some(sp), send, _listener: Some(listener) }
+		};
+		for _ in 0..2 {
+			sc.mgr.backend_mut().callback(CB_FRAMES, 2);
+		}
+		sc
+	}
+}
+/// value of a send command: ids 0, 1, 2 mod 3 are 0 dB, silence, -6 dB; the tween is `tw(id / 3)`
+fn send_db(id: i64) -> Decibels {
+	[Decibels::IDENTITY, Decibels::SILENCE, Decibels(-6.0)][(id.rem_euclid(3)) as usize]
+}
+impl Scene for SendSc {
+	fn kinds(&self) -> Vec<&'static str> {
+		if self.sub.is_some() {
+			vec!["track::sub::builder::set_volume", "track::sub::set_volume", "track::send::builder::set_volume"]
+		} else {
+			vec!["track::sub::spatial_builder::set_volume", "track::sub::set_volume", "track::send::builder::set_volume"]
+		}
+	}
+	fn issue(&mut self, kind: usize, id: i64) {
+		let id3 = id / 3;
+		match kind {
+			0 => {
+				if let Some(t) = self.sub.as_mut() {
+					t.set_send(self.send.id(), send_db(id), tw(id3)).unwrap()
+				}
+				if let Some(t) = self.spatial.as_mut() {
+					t.set_send(self.send.id(), send_db(id), tw(id3)).unwrap()
+				}
+			}
+			1 => {
+				if let Some(t) = self.sub.as_mut() {
+					t.set_volume(send_db(id), tw(id3))
+				}
+				if let Some(t) = self.spatial.as_mut() {
+					t.set_volume(send_db(id), tw(id3))
+				}
+			}
+			_ => self.send.set_volume(send_db(id), tw(id3)),
+		}
+	}
+	fn mgr(&mut self) -> &mut Mgr {
+		&mut self.mgr
+	}
+}
+
+fn mid_step(chunk_cmds: &[(usize, (usize, i64))]) -> MidStep {
+	let mut during = vec![vec![]; MID_CHUNKS];
+	for (c, cmd) in chunk_cmds {
+		during[*c].push(*cmd);
+	}
+	MidStep { before: vec![], during }
+}
+
+type MkScene = (&'static str, fn(u64) -> Box<dyn Scene>, u64);
+fn mid_scenes() -> Vec<MkScene> {
+	vec![
+		("sends", |v| Box::new(SendSc::new(v)), 2),
+		("tracks", |v| Box::new(TrackSc::new(v)), 2),
+		("static", |v| Box::new(StaticSc::new(v)), 2),
+		("two_sounds", |v| Box::new(TwoSoundsSc::new(v)), 1),
+		("clock", |v| Box::new(ClockSc::new(v)), 2),
+		("modulators", |v| Box::new(ModSc::new(v)), 1),
+		("effects", |v| Box::new(FxSc::new(v)), 1),
+	]
+}
+
+/// the fixed corpus: identical on every run, whatever the seed
+fn part_m_directed(s: &mut Session, covered: &mut BTreeSet<String>) {
+	// MID-abs on the send scene: id 1 = silence, id 12 = 0 dB, both with a zero-length tween
+	let open = vec![obs32(2.0 * SEND_SRC); CB_FRAMES * 2];
+	let closed = vec![obs32(SEND_SRC); CB_FRAMES * 2];
+	for chunk in 0..MID_CHUNKS {
+		let mk = || -> Box<dyn Scene> { Box::new(SendSc::new(0)) };
+		let kinds = mk().kinds();
+		// (i) closed during chunk `chunk` of callback 2
+		let pat = vec![MidStep::default(), mid_step(&[(chunk, (0, 1))]), MidStep::default(), MidStep::default()];
+		let (a, _) = check_mid(s, "sends0", &mk, &pat, &kinds, covered, "d");
+		let want = [&open, &open, &closed, &closed];
+		for j in 0..4 {
+			if a[j][..CB_FRAMES * 2] != want[j][..] {
+				let heard: Vec<f32> = a[j][..CB_FRAMES * 2].iter().step_by(2).map(|b| f32::from_bits(*b as u32)).collect();
+				s.fail(
+					mid_text("sends0", &kinds, &pat),
+					format!(
+						"MID-abs: TrackHandle::set_send(SILENCE, zero tween) written while chunk {chunk} of callback 2 was being rendered (source {SEND_SRC}, send at 0 dB: {} with the send open, {} closed): callback {} must be heard entirely {}, left channel heard {:?}",
+						2.0 * SEND_SRC,
+						SEND_SRC,
+						j + 1,
+						if j < 2 { "open (the command takes effect at the start of callback 3)" } else { "closed" },
+						heard
+					),
+					None,
+				);
+				break;
+			}
+		}
+		// (ii) closed during chunk `chunk`, re-opened during the next chunk (or, from the last chunk, after the callback)
+		let mut st = mid_step(&[(chunk, (0, 1))]);
+		let mut after = MidStep::default();
+		if chunk + 1 < MID_CHUNKS {
+			st.during[chunk + 1].push((0, 12));
+		} else {
+			after.before.push((0, 12));
+		}
+		let pat = vec![MidStep::default(), st, after, MidStep::default()];
+		let (a, _) = check_mid(s, "sends0", &mk, &pat, &kinds, covered, "d");
+		for j in 0..4 {
+			if a[j][..CB_FRAMES * 2] != open[..] {
+				let heard: Vec<f32> = a[j][..CB_FRAMES * 2].iter().step_by(2).map(|b| f32::from_bits(*b as u32)).collect();
+				s.fail(
+					mid_text("sends0", &kinds, &pat),
+					format!(
+						"MID-abs: set_send(SILENCE) then set_send(0 dB), both written before callback 3 starts: only the last may be applied, the send must never be heard closed; callback {} left channel heard {:?}",
+						j + 1,
+						heard
+					),
+					None,
+				);
+				break;
+			}
+		}
+		s.eval_only("mid_absolute_probe");
+	}
+	// every kind of every scene: one write during chunk 0 of callback 2; two writes of the kind during
+	// chunks 0 and 1 of callback 2; one during the last chunk of callback 2 and one before callback 3
+	for (name, mk, variants) in mid_scenes() {
+		for variant in 0..variants {
+			let mkb = move || mk(variant);
+			let kinds = mkb().kinds();
+			let nm = format!("{name}{variant}");
+			for k in 0..kinds.len() {
+				let pats = [
+					vec![MidStep::default(), mid_step(&[(0, (k, 4))]), MidStep::default(), MidStep::default()],
+					vec![MidStep::default(), mid_step(&[(0, (k, 7)), (1, (k, 12))]), MidStep::default(), MidStep::default()],
+					vec![
+						MidStep { before: vec![(k, 5)], during: vec![vec![]; MID_CHUNKS] },
+						mid_step(&[(MID_CHUNKS - 1, (k, 10))]),
+						MidStep { before: vec![(k, 16)], during: vec![] },
+						MidStep::default(),
+					],
+				];
+				for pat in pats.iter() {
+					check_mid(s, &nm, &mkb, pat, &kinds, covered, "d");
+				}
+			}
+		}
+	}
+}
+
+fn gen_mid_pattern(r: &mut Rng, pick: &[usize]) -> MidPattern {
+	let n = r.range(2, 5) as usize;
+	let mut id = r.range(0, 40);
+	let mut cmds = |r: &mut Rng, max: i64| -> Vec<(usize, i64)> {
+		(0..r.range(1, max))
+			.map(|_| {
+				id += r.range(1, 3);
+				(*r.pick(pick), id)
+			})
+			.collect()
+	};
+	let mut pat: MidPattern = (0..n)
+		.map(|_| {
+			let before = if r.chance(1, 3) { cmds(r, 2) } else { vec![] };
+			// most callbacks have writes during at least one chunk that is not the last
+			let during: Vec<Vec<(usize, i64)>> = (0..MID_CHUNKS).map(|c| if r.chance(if c + 1 < MID_CHUNKS { 3 } else { 1 }, 5) { cmds(r, 2) } else { vec![] }).collect();
+			MidStep { before, during }
+		})
+		.collect();
+	for _ in 0..r.range(1, 2) {
+		pat.push(MidStep::default());
+	}
+	pat
+}
+
+fn part_m(s: &mut Session, args: &Args, covered: &mut BTreeSet<String>) {
+	part_m_directed(s, covered);
+	// random scripts; a generator of its own so that the other parts see the same stream as before
+	let mut r = Rng::new(args.seed ^ 0xC07_0D1D);
+	let reps = (if args.thorough { 120 } else { 24 }) * args.budget_mul;
+	for (name, mk, variants) in mid_scenes() {
+		for variant in 0..variants {
+			let mkb = move || mk(variant);
+			let kinds = mkb().kinds();
+			let nm = format!("{name}{variant}");
+			let all: Vec<usize> = (0..kinds.len()).collect();
+			for i in 0..reps {
+				let n = if i % 2 == 0 { 1 } else { r.range(2, 3.min(all.len() as i64)) as usize };
+				let mut pick: Vec<usize> = vec![];
+				while pick.len() < n {
+					let k = *r.pick(&all);
+					if !pick.contains(&k) {
+						pick.push(k);
+					}
+				}
+				let pat = gen_mid_pattern(&mut r, &pick);
+				check_mid(s, &nm, &mkb, &pat, &kinds, covered, "r");
 			}
 		}
 	}
